@@ -1173,17 +1173,77 @@ def classify_case(description: str) -> str:
     return classify(description)
 
 
-def run_cases(ps, body, methods, modes_key):
+# -- the API description read without schemathesis: which methods a path documents, which parameters an operation requires
+
+def _pointer(raw, ref):
+    if not ref.startswith("#/"):
+        raise InfraError(f"only local references are generated: {ref}")
+    node = raw
+    for part in ref[2:].split("/"):
+        node = node[part.replace("~1", "/").replace("~0", "~")]
+    return node
+
+
+def doc_item(raw, path):
+    """the Path Item Object of `path` (OAS: a path item may be given as a reference)"""
+    entry = raw["paths"][path]
+    return _pointer(raw, entry["$ref"]) if "$ref" in entry else entry
+
+
+def doc_documented(raw, path):
+    return {k for k in doc_item(raw, path) if k in GEN.HTTP8}
+
+
+def _decl(raw, p):
+    p = _pointer(raw, p["$ref"]) if "$ref" in p else p
+    return p["name"], p["in"], bool(p.get("required", False))
+
+
+def doc_required(raw, path, method):
+    """{(name, location): required} for the operation: path-level declarations, overridden by the operation's own"""
+    item = doc_item(raw, path)
+    out = {}
+    for level in (item.get("parameters", []), item[method].get("parameters", [])):
+        for p in level:
+            name, loc, req = _decl(raw, p)
+            out[(name, loc)] = req
+    return out
+
+
+def _item_wire(raw, item):
+    return {"keys": list(item.keys()), "shared": [list(_decl(raw, p)) for p in item.get("parameters", [])],
+            "own": [[k, [list(_decl(raw, p)) for p in v.get("parameters", [])]]
+                    for k, v in item.items() if k in GEN.HTTP8 and isinstance(v, dict)]}
+
+
+def doc_wire(raw, path):
+    """the document as the Lean model / specification take it (lean/Drivers/C03.lean: DOC)"""
+    entry = raw["paths"][path]
+    items = []
+    for sec in GEN.PATH_ITEM_SECTIONS.values():
+        node = raw
+        for part in sec:
+            node = node.get(part, {}) if isinstance(node, dict) else {}
+        for name, it in node.items():
+            items.append(["#/" + "/".join(sec) + "/" + name, _item_wire(raw, it)])
+    e = {"ref": entry["$ref"]} if "$ref" in entry else {"inline": _item_wire(raw, entry)}
+    return {"entry": e, "pathItems": items}
+
+
+def run_cases(ps, body, methods, modes_key, ctx=None):
     import schemathesis
     from schemathesis.generation.hypothesis.builder import _iter_coverage_cases
-    raw, path, method = GEN.build_operation_doc(ps, body, methods)
+    ctx = ctx or {}
+    raw, path, method = GEN.build_operation_doc(ps, body, methods, ctx=ctx)
     schema = schemathesis.openapi.from_dict(raw)
     op = schema[path][method.upper()]
-    out, err = [], None
+    cfg = ctx.get("cfg")
+    out, err, objs = [], None, []
     with recording_cover_calls() as calls:
         try:
-            for c in _iter_coverage_cases(op, list(MODES[modes_key])):
+            for c in _iter_coverage_cases(op, list(MODES[modes_key]), None if cfg is None else set(cfg)):
                 d = c.meta.phase.data
+                objs.append(c)
                 conts, vals = {}, {}
                 for kind in ("query", "path_parameters", "headers", "cookies"):
                     v = getattr(c, kind)
@@ -1200,10 +1260,11 @@ def run_cases(ps, body, methods, modes_key):
         except Exception as e:  # KeyError is modelled; anything else leaves the modelled fragment
             err = e
     params = [(p.location, p.name, bool(p.is_required)) for p in op.iter_parameters()]
-    documented = set(schema[path])
-    unexpected = sorted(m.upper() for m in ({"get", "put", "post", "delete", "options", "patch", "trace"} - {m.lower() for m in documented}))
     return {"cases": out, "err": err, "calls": calls, "params": params, "method": method.upper(),
-            "n_bodies": len(body or []), "media_types": [mt for mt, _ in (body or [])], "unexpected": unexpected}
+            "n_bodies": len(body or []), "media_types": [mt for mt, _ in (body or [])],
+            "objs": objs, "op": {"params": [list(p) for p in ps], "body": body, "methods": methods, "modes": modes_key, "ctx": ctx},
+            "raw": raw, "path": path, "doc": doc_wire(raw, path), "documented": doc_documented(raw, path),
+            "required": doc_required(raw, path, method), "cfg": cfg}
 
 
 def lv(g):
@@ -1211,28 +1272,60 @@ def lv(g):
 
 
 def cases_request(run, modes_key, vb):
+    """the model gets the document (not the operation map of the code), the configuration and what the cover_schema_iter
+    calls of the real run yielded, in call order"""
     np_, nb = len(run["params"]), run["n_bodies"]
     calls = run["calls"]
-    if len(calls) < np_:
+    if len(calls) < np_ and run["err"] is None:
         raise InfraError(f"cover_schema_iter calls {len(calls)} < parameters {np_}")
     # a body alternative whose cover call was never made cannot happen: every alternative is visited
-    params = [{"location": loc, "name": name, "required": req, "values": [lv(g) for g in calls[i]["values"]]}
-              for i, (loc, name, req) in enumerate(run["params"])]
+    streams = [[lv(g) for g in c["values"]] for c in calls[:np_]]
     bodies = [{"mediaType": run["media_types"][j], "values": [lv(g) for g in calls[np_ + j]["values"]]}
               for j in range(nb) if np_ + j < len(calls)]
     neg_calls = [[lv(g) for g in c["values"]] for c in calls[np_ + nb:]]
-    return ("cases", {"vb": vb, "params": params, "hasBody": nb > 0, "bodies": bodies, "methods": run["unexpected"],
-                      "pos": "P" in modes_key, "neg": "N" in modes_key, "negCalls": neg_calls})
+    return ("casesdoc", {"vb": vb, "doc": run["doc"], "opMethod": run["method"].lower(), "cfg": run["cfg"],
+                         "streams": streams, "hasBody": nb > 0, "bodies": bodies,
+                         "pos": "P" in modes_key, "neg": "N" in modes_key, "negCalls": neg_calls})
+
+
+def desc_claim(r):
+    """what the description of a structurally negative case claims about the document"""
+    if r["desc"].startswith("unspecified-method:"):
+        return {"unspecified": r["desc"].split(":", 1)[1].lower()}
+    if r["desc"].startswith("missing:"):
+        return {"missing": [r["parameter"], r["parameter_location"]]}
+    if r["desc"].startswith("missing-required:"):
+        return {"missing_property": r["desc"].split(":", 1)[1]}
+    return None
+
+
+def real_case_wire(r, parts):
+    return {"method": r["method"].lower(), "mode": r["mode"], "comps": [[k, v] for k, v in r["comps"].items()],
+            "parts": [[k, v] for k, v in parts.items()], "desc": desc_claim(r), "parameter": r["parameter"],
+            "parameter_location": r["parameter_location"]}
+
+
+def judgedoc_request(run, expected):
+    """the real cases, for the Lean reference predicates (caseLabelOkDoc / compsOk / descOkDoc)"""
+    cases, index = [], []
+    for i, (r, exp) in enumerate(zip(run["cases"], expected)):
+        if exp is None:
+            continue
+        index.append(i)
+        cases.append(real_case_wire(r, exp["comps"]))
+    asked = sorted(run["required"])
+    return index, asked, ("judgedoc", {"doc": run["doc"], "opMethod": run["method"].lower(), "cases": cases,
+                                       "required": [list(k) for k in asked]})
 
 
 def same_case(m, r, op_method):
     if m["mode"] != r["mode"] or m["comps"] != r["comps"]:
         return False
-    if m["desc"] != r["desc"] and "other" not in r["desc"]:
+    if m["desc"] != (r["desc"].lower() if r["desc"].startswith("unspecified-method:") else r["desc"]) and "other" not in r["desc"]:
         return False
     if m["parameter"] != r["parameter"] or m["parameter_location"] != r["parameter_location"]:
         return False
-    if (m["method"] or op_method) != r["method"]:
+    if (m["method"] or op_method).lower() != r["method"].lower():
         return False
     for kind, content in m["contents"].items():
         if kind == "body" or "generated" in content:
@@ -1249,6 +1342,17 @@ def py_case_label_ok(r):
     structural = r["desc"].startswith(("missing:", "duplicate:", "unspecified-method:"))
     want = structural or any(v == "negative" for v in r["comps"].values())
     return (r["mode"] == "negative") == want
+
+
+def py_desc_ok(run, r):
+    """what the description of the case claims about the document is true: 'Unspecified HTTP method: M' is sent with M and
+    the path does not document M; 'Missing p at loc' names a parameter the operation requires"""
+    claim = desc_claim(r)
+    if claim is None or "missing_property" in claim:
+        return True
+    if "unspecified" in claim:
+        return claim["unspecified"] == r["method"].lower() and claim["unspecified"] not in run["documented"]
+    return run["required"].get(tuple(claim["missing"])) is True
 
 
 def content_oracle(run):
@@ -1269,8 +1373,12 @@ def content_oracle(run):
     out = []
     for c in run["cases"]:
         d = c["desc"]
-        structural = d.startswith(("missing:", "duplicate:", "unspecified-method:"))
-        template_like = structural or d in ("default-positive", "only-required") or d.startswith(("required-and-optional:", "required-and-n:"))
+        # the method the case is SENT with is read against the document; what the description says about it is not used
+        undocumented = c["method"].lower() not in run["documented"]
+        removed_required = d.startswith("missing:") and run["required"].get((c["parameter"], c["parameter_location"])) is True
+        structural = removed_required or d.startswith("duplicate:")
+        template_like = d.startswith(("missing:", "duplicate:", "unspecified-method:")) or d in ("default-positive", "only-required") \
+            or d.startswith(("required-and-optional:", "required-and-n:"))
         varied_kind, varied_label, varied_index, generated = None, None, 0, False
         if d == "only-required" or d.startswith(("required-and-optional:", "required-and-n:")):
             varied_kind = KIND_OF.get(c["parameter_location"] or "")     # the container with_container replaced
@@ -1313,15 +1421,16 @@ def content_oracle(run):
                     neg.append(name)
             comps[kind] = "negative" if neg else "positive"
             why[kind] = f"negative values: {neg}" if neg else "all values positive"
-        if structural and d.startswith(("missing:", "duplicate:")):
+        if structural:
             k = KIND_OF.get(c["parameter_location"] or "")
-            comps[k], why[k] = "negative", "parameter removed" if d.startswith("missing:") else "parameter duplicated"
+            comps[k], why[k] = "negative", "required parameter removed" if d.startswith("missing:") else "parameter duplicated"
         if c["has_body"]:
             label = varied_label if varied_kind == "body" else first_body
             if label is not None:
                 comps["body"], why["body"] = label, "label of the body value"
-        mode = "negative" if structural or any(v == "negative" for v in comps.values()) else "positive"
-        out.append({"mode": mode, "comps": comps, "why": why, "structural": structural, "varied_kind": varied_kind,
+        mode = "negative" if undocumented or structural or any(v == "negative" for v in comps.values()) else "positive"
+        out.append({"mode": mode, "comps": comps, "why": why, "structural": structural or undocumented,
+                    "undocumented": undocumented, "varied_kind": varied_kind,
                     "varied_negative": varied_label == "negative" or generated, "varied_index": varied_index})
     return out
 
@@ -1335,47 +1444,297 @@ def detect_body_variant(chk):
     return v
 
 
-def cases_mechanism(chk, drv, ops, vb):
-    """ops: [(mechanism, params, body, methods, modes_key)]"""
-    runs = [(o, run_cases(*o[1:])) for o in ops]
-    outs = drv.batch([cases_request(run, o[4], vb) for o, run in runs])
-    for (o, run), m in zip(runs, outs):
-        mech, ps, body, methods, mk = o
-        key = [[list(p[:3]) + [p[3]] for p in ps], body, methods, mk]
+def canon_method_block(cases, cfg):
+    """what of the 'Unspecified HTTP method' block is compared between model and code: WHICH methods get a case, not in
+    which order (each maximal run of such cases is sorted); for the configuration `set()` nothing (whether an empty
+    configuration means "the defaults" or "none" is not a matter of labels - every real case is still judged by the replay)"""
+    out, block = [], []
+    for c in cases + [None]:
+        if c is not None and c["desc"].lower().startswith("unspecified-method:"):
+            block.append(c)
+            continue
+        if cfg != []:
+            out += sorted(block, key=lambda c: c["desc"].lower())
+        block = []
+        if c is not None:
+            out.append(c)
+    return out
+
+
+# ---- mechanism 4: the consumers of the labels (specs/openapi/checks.py) -----------------------------------------------
+
+KF_MRH = "C03:missing_required_header:missing-required-property-case-read-as-missing-header"
+CONSUMERS = ("negative_data_rejection", "positive_data_acceptance", "missing_required_header", "unsupported_method")
+PROBES = [(200, False), (400, False), (405, False), (405, True), (406, False), (401, False), (500, False), (404, False), (204, False), (422, False)]
+MRH_ALLOWED = [["406"], ["400", "401"]]
+
+
+def call_consumers(case, status, allow, mrh_allowed):
+    """-> ([fails x4], onlyAdditional) from the real check functions on a synthetic response"""
+    import requests
+    from schemathesis.checks import CheckContext
+    from schemathesis.core.transport import Response
+    from schemathesis.openapi.checks import MissingRequiredHeaderConfig
+    from schemathesis.specs.openapi import checks as oc
+    req = requests.Request(case.method, "http://127.0.0.1/p").prepare()
+    resp = Response(status_code=status, headers={"allow": ["GET"]} if allow else {}, content=b"", request=req, elapsed=0.1, verify=False)
+    ctx = CheckContext(override=None, auth=None, headers=None, transport_kwargs=None,
+                       config={oc.missing_required_header: MissingRequiredHeaderConfig(allowed_statuses=list(mrh_allowed))})
+    out = []
+    for name in CONSUMERS:
+        try:
+            getattr(oc, name)(ctx, resp, case)
+            out.append(False)
+        except (AssertionError, Exception) as e:
+            if not isinstance(e, AssertionError) and type(e).__module__.split(".")[0] != "schemathesis":
+                raise InfraError(f"{name} raised {e!r}")
+            out.append(True)
+    try:
+        only_additional = bool(oc.has_only_additional_properties_in_non_body_parameters(case))
+    except Exception as e:
+        raise InfraError(f"has_only_additional_properties_in_non_body_parameters raised {e!r}")
+    return out, only_additional
+
+
+def detect_consumer_variant(chk):
+    run = run_cases([("header", "X-Obj", True, GEN.OBJECT_HEADER)], None, ["get"], "PN", {"method": "get"})
+    i = next((i for i, c in enumerate(run["cases"]) if c["desc"].startswith("missing-required:")), None)
+    if i is None:
+        raise InfraError("the witness operation of FC03a has no 'Missing required property' case")
+    fails, _ = call_consumers(run["objs"][i], 400, False, ["406"])
+    v = "asFound" if fails[2] else "repaired"
+    chk.variants["missing_required_header:description-prefix"] = v
+    return v
+
+
+def consumers_mechanism(chk, drv, runs, oracles, vh, mech="consumers"):
+    """The real check functions and their Lean model on (real coverage case, synthetic response).
+    Per chosen case: the response of a server that implements the description (decided by the replay oracle: 405 + Allow for
+    an undocumented method, a client error for a negative part, 2xx otherwise) and two other responses."""
+    work = []          # (run, i, r, exp, status, allow, allowed, conforming)
+    for ri, ((o, run), expected) in enumerate(zip(runs, oracles)):
+        if run["err"] is not None:
+            continue
         real = run["cases"]
-        chk.case(mech, key=key, nontrivial=len(real) > 0 or run["err"] is not None,
-                 sample={"params": [list(p) for p in ps], "body": body, "modes": mk,
-                         "impl": [[c["mode"][:3], c["comps"], c["desc"]] for c in real[:6]]})
-        chk.feature(f"{mech}:modes={mk}")
+        chosen, others = [], 0
+        for i, r in enumerate(real):
+            special = r["desc"].startswith(("unspecified-method:", "missing:", "missing-required:", "duplicate:"))
+            if special or others < 3 or (r["mode"] == "negative" and others < 5):
+                chosen.append(i)
+                others += 0 if special else 1
+        for i in chosen:
+            r, exp = real[i], expected[i]
+            if exp is None:
+                continue
+            if exp["undocumented"]:
+                conforming = (405, True)
+            elif exp["mode"] == "negative":
+                conforming = ((400, 406, 422)[(ri + i) % 3], False)
+            else:
+                conforming = ((200, 204)[(ri + i) % 2], False)
+            probes = [conforming, PROBES[(ri + i) % len(PROBES)], PROBES[(ri + 3 * i + 1) % len(PROBES)]]
+            for k, (status, allow) in enumerate(probes):
+                work.append((run, i, r, exp, status, allow, MRH_ALLOWED[(ri + i + k) % 2], k == 0))
+    real_out = [call_consumers(run["objs"][i], status, allow, allowed) for run, i, r, exp, status, allow, allowed, _ in work]
+    from schemathesis.specs.openapi.utils import expand_status_codes
+    reqs, spans = [], []
+    by_run = {}
+    for w, (fails, oa) in zip(work, real_out):
+        by_run.setdefault(id(w[0]), (w[0], []))[1].append((w, fails, oa))
+    for run, items in by_run.values():
+        reqs.append(("consumers", {"vh": vh, "opMethod": run["method"].lower(), "items": [
+            {"case": real_case_wire(r, exp["comps"]), "status": status, "allow": allow, "reqMethod": r["method"].upper(),
+             "onlyAdditional": oa, "allowed": sorted(expand_status_codes(allowed))}
+            for (_, i, r, exp, status, allow, allowed, _), fails, oa in items]}))
+        spans.append(items)
+    outs = drv.batch(reqs)
+    for items, m in zip(spans, outs):
         if isinstance(m, dict) and "__err__" in m:
             raise InfraError(f"model error {m}")
-        inp = {"params": [list(p) for p in ps], "body": body, "methods": methods, "modes": mk}
+        for ((run, i, r, exp, status, allow, allowed, conforming), fails, oa), lean in zip(items, m):
+            chk.case(mech, key=[run["doc"], run["cfg"], i, r["desc"], r["mode"], status, allow, allowed], nontrivial=True,
+                     sample={"case": [r["method"], r["mode"], r["text"]], "status": status, "allow": allow, "fails": dict(zip(CONSUMERS, fails))})
+            chk.feature(f"{mech}:{'conforming' if conforming else 'other'}-response:{status}")
+            for name, f in zip(CONSUMERS, fails):
+                if f:
+                    chk.feature(f"{mech}:{name}:fails")
+            case_view = {k: v for k, v in r.items() if k != "values"}
+            inp = {"case": case_view, "case_index": i, "status": status, "allow": allow, "mrh_allowed": allowed, "only_additional": oa,
+                   "op": run["op"]}
+            if lean != fails:
+                chk.disagreement(mech, inp, dict(zip(CONSUMERS, lean)), dict(zip(CONSUMERS, fails)))
+            # replay (1): a case whose label and description are right passes the label-driven checks on the response of a
+            # server that implements the description (theorem coverage_cases_pass_on_conforming_server, on the real code)
+            sound = r["mode"] == exp["mode"] and r["comps"] == exp["comps"] and py_desc_ok(run, r)
+            if conforming and sound:
+                for name, f in zip(CONSUMERS, fails):
+                    if f and name != "missing_required_header":
+                        chk.violation(f"C03:{name}:fails-on-response-of-conforming-server",
+                                      f"{name} fails for case '{r['text']}' ({r['method']}, labelled {r['mode']}, parts {exp['comps']}) on status "
+                                      f"{status}{' with Allow' if allow else ''}, the answer of a server that implements the description",
+                                      {"mechanism": "consumers", **inp, "expected": exp})
+            # replay (2): missing_required_header speaks up only when a header the operation requires was removed
+            if fails[2]:
+                removed = r["desc"].startswith("missing:") and r["parameter_location"] == "header" and \
+                    run["required"].get((r["parameter"], "header")) is True and \
+                    r["parameter"] not in r["containers"].get("headers", [])
+                if not removed:
+                    chk.violation(KF_MRH if r["desc"].startswith("missing-required:") else
+                                  "C03:missing_required_header:fires-on-case-that-removes-no-required-header",
+                                  f"missing_required_header rejects status {status} for case '{r['text']}' ({r['parameter']}@{r['parameter_location']}): "
+                                  f"the case sends headers {sorted(r['containers'].get('headers', []))}, no required header is missing",
+                                  {"mechanism": "consumers", **inp, "expected": exp})
+
+
+def attached_mechanism(chk, runs, mech="cases:attached"):
+    """what `create_test` -> `add_coverage` attaches as explicit examples (GenerationConfig.unexpected_methods travels this way)
+    against what `_iter_coverage_cases` produced for the same operation: same cases, same labels, same methods (as a multiset:
+    the order in which Hypothesis runs explicit examples is not part of the contract)"""
+    import schemathesis
+    from hypothesis import Phase, settings
+    from schemathesis.generation import GenerationConfig
+    from schemathesis.generation.hypothesis.builder import HypothesisTestConfig, HypothesisTestMode, create_test
+
+    def view(method, meta):
+        d = meta.phase.data
+        return (method.upper(), meta.generation.mode.value, tuple(sorted((k.value, v.mode.value) for k, v in meta.components.items())),
+                d.description, d.parameter, d.parameter_location)
+    for o, run in runs:
         if run["err"] is not None:
-            chk.feature(f"{mech}:impl-raised:{type(run['err']).__name__}")
-            if isinstance(run["err"], KeyError) and "error" not in m:
-                chk.disagreement(mech, inp, "cases", "KeyError")
             continue
-        if "error" in m:
-            chk.disagreement(mech, inp, "KeyError", [[c["mode"], c["desc"]] for c in real])
-            continue
-        mc = m["cases"]
-        agree = len(mc) == len(real) and all(same_case(a, b, run["method"]) for a, b in zip(mc, real))
-        if not agree:
-            i = next((i for i, (a, b) in enumerate(zip(mc, real)) if not same_case(a, b, run["method"])), min(len(mc), len(real)))
-            chk.disagreement(mech, inp, {"n": len(mc), "first_diff": mc[i] if i < len(mc) else None},
-                             {"n": len(real), "first_diff": real[i] if i < len(real) else None})
+        schema = schemathesis.openapi.from_dict(run["raw"])
+        op = schema[run["path"]][run["method"]]
+        got = []
+
+        def test(case):
+            got.append(case)
+        cfg = run["cfg"]
+        try:
+            create_test(operation=op, test_func=test, config=HypothesisTestConfig(
+                modes=[HypothesisTestMode.COVERAGE],
+                generation=GenerationConfig(modes=list(MODES[o[4]]), unexpected_methods=None if cfg is None else set(cfg)),
+                settings=settings(phases=[Phase.explicit], deadline=None, database=None)))()
+        except __import__("unittest").SkipTest:      # Hypothesis: no explicit example was attached
+            pass
+        attached = sorted((view(c.method, c.meta) for c in got if c.meta is not None), key=repr)
+        # add_coverage leaves out cases whose media type the transport cannot serialise (its documented filter)
+        direct = sorted((view(c.method, c.meta) for c in run["objs"]
+                         if not c.media_type or op.schema.transport.get_first_matching_media_type(c.media_type) is not None), key=repr)
+        chk.case(mech, key=[run["doc"], cfg, o[4]], nontrivial=len(direct) > 0,
+                 sample={"op": run["op"], "attached": len(attached), "direct": len(direct)})
+        if attached != direct:
+            only_a = [list(map(str, v)) for v in attached if v not in direct][:3]
+            only_d = [list(map(str, v)) for v in direct if v not in attached][:3]
+            chk.disagreement(mech, run["op"], {"n": len(direct), "only_in_iter_coverage_cases": only_d},
+                             {"n": len(attached), "only_attached": only_a})
+        for c in got:
+            text = c.meta.phase.data.description if c.meta is not None else ""
+            if text.startswith("Unspecified HTTP method:") and c.method.lower() in run["documented"]:
+                chk.violation(SIG_DOCUMENTED, f"attached example '{text}' (labelled {c.meta.generation.mode.value}) uses {c.method}, which the "
+                              f"path {run['path']} documents (documented: {sorted(run['documented'])})",
+                              {"mechanism": "cases", **run["op"], "attached": True})
+
+
+SIG_DOCUMENTED = "C03:_iter_coverage_cases:documented-method-presented-as-unspecified"
+SIG_METHOD_TEXT = "C03:_iter_coverage_cases:unspecified-method-description-differs-from-method-sent"
+SIG_UNDOC_POSITIVE = "C03:_iter_coverage_cases:undocumented-method-case-labelled-positive"
+SIG_MISSING_OPTIONAL = "C03:_iter_coverage_cases:missing-case-for-parameter-not-required"
+
+
+def cases_mechanism(chk, drv, ops, vb, vh=None):
+    """ops: [(mechanism, params, body, methods, modes_key[, ctx])]; ctx: the document context (GEN.build_operation_doc);
+    vh: when given, the consumers of the labels are run on the cases too (consumers_mechanism)"""
+    ops = [o if len(o) > 5 else (*o, None) for o in ops]
+    runs = [(o, run_cases(*o[1:])) for o in ops]
+    outs = drv.batch([cases_request(run, o[4], vb) for o, run in runs])
+    oracles = [content_oracle(run) for _, run in runs]
+    judge_reqs = [judgedoc_request(run, exp) for (_, run), exp in zip(runs, oracles)]
+    judged = drv.batch([req for _, _, req in judge_reqs])
+    if vh is not None:
+        k = 3 if chk.thorough else 2
+        consumers_mechanism(chk, drv, runs[::k], oracles[::k], vh)
+        attached_mechanism(chk, runs[:: 8 if chk.thorough else 6])
+    for (o, run), m, expected, (jindex, asked, _), jd in zip(runs, outs, oracles, judge_reqs, judged):
+        mech, ps, body, methods, mk, ctx = o
+        key = [[list(p[:3]) + [p[3]] for p in ps], body, methods, mk, ctx]
+        real = run["cases"]
+        chk.case(mech, key=key, nontrivial=len(real) > 0 or run["err"] is not None,
+                 sample={"params": [list(p) for p in ps], "body": body, "modes": mk, "ctx": ctx,
+                         "impl": [[c["mode"][:3], c["comps"], c["desc"]] for c in real[:6]]})
+        chk.feature(f"{mech}:modes={mk}")
+        if ctx:
+            chk.feature(f"{mech}:layout={ctx.get('layout', 'inline')}")
+            cfg = ctx.get("cfg")
+            chk.feature(f"{mech}:cfg={'none' if cfg is None else 'empty' if not cfg else 'with-head' if 'head' in cfg else 'custom'}")
+            for lvl in set(ctx.get("levels") or []):
+                chk.feature(f"{mech}:parameter-level={lvl}")
+        for d in (m, jd):
+            if isinstance(d, dict) and "__err__" in d:
+                raise InfraError(f"model error {d}")
+        inp = {"params": [list(p) for p in ps], "body": body, "methods": methods, "modes": mk, "ctx": ctx}
+        # ---- the two independent readings of the document must agree (Lean `documents` / `requiresParam` vs the Python one)
+        if set(jd["documented"]) != run["documented"] or not jd["op_documented"]:
+            raise InfraError(f"Lean and Python disagree on the documented methods of {inp}: {jd['documented']} vs {sorted(run['documented'])}")
+        if [run["required"][k] for k in asked] != jd["required"]:
+            raise InfraError(f"Lean and Python disagree on the required parameters of {inp}: {jd['required']} vs {run['required']}")
+        # ---- correspondence
+        if m.get("error") == "no-operation":
+            chk.disagreement(mech, inp, "no such operation in the document", f"{len(real)} cases")
+            agree, mc = False, []
         else:
-            chk.feature(f"{mech}:agree")
-        # ---- replay: (1) independent Python reading of the statement on the real cases: which parts of each case carry a
-        #      negative label is reconstructed from the recorded cover_schema_iter yields; (2) the Lean specification
-        #      (caseLabelOk / compsOk) on the contents-by-label of the model when it agrees with the real cases
-        expected = content_oracle(run)
+            if [list(p) for p in run["params"]] != m["params"]:
+                chk.disagreement(mech + ":parameters", inp, m["params"], [list(p) for p in run["params"]])
+            if run["err"] is not None:
+                chk.feature(f"{mech}:impl-raised:{type(run['err']).__name__}")
+                if isinstance(run["err"], KeyError) and "error" not in m:
+                    chk.disagreement(mech, inp, "cases", "KeyError")
+                continue
+            if "error" in m:
+                chk.disagreement(mech, inp, "KeyError", [[c["mode"], c["desc"]] for c in real])
+                agree, mc = False, []
+            else:
+                mc, rc = canon_method_block(m["cases"], run["cfg"]), canon_method_block(real, run["cfg"])
+                agree = len(mc) == len(rc) and all(same_case(a, b, run["method"]) for a, b in zip(mc, rc))
+                if not agree:
+                    i = next((i for i, (a, b) in enumerate(zip(mc, rc)) if not same_case(a, b, run["method"])), min(len(mc), len(rc)))
+                    chk.disagreement(mech, inp, {"n": len(mc), "methods": m["methods"], "first_diff": mc[i] if i < len(mc) else None},
+                                     {"n": len(rc), "first_diff": {k: v for k, v in rc[i].items() if k != "values"} if i < len(rc) else None})
+                else:
+                    chk.feature(f"{mech}:agree")
+        # ---- replay: every REAL case is judged (1) by an independent Python reading of the statement: which parts carry a
+        #      negative label is reconstructed from the recorded cover_schema_iter yields, which methods the path documents and
+        #      which parameters the operation requires from the raw document; (2) by the Lean reference predicates
+        #      (caseLabelOkDoc / compsOk / descOkDoc, through the driver) on the same real case.  (1) and (2) must agree.
+        lean = {i: v for i, v in zip(jindex, jd["cases"])}
         for i, r in enumerate(real):
             exp = expected[i]
-            ok = exp is None or (r["mode"] == exp["mode"] and all(r["comps"].get(k) == v for k, v in exp["comps"].items())
-                                 and set(r["comps"]) == set(exp["comps"]))
-            chk.feature(f"{mech}:case-label:{'ok' if ok else 'WRONG'}")
             case_view = {k: v for k, v in r.items() if k != "values"}
+            replay_of = {"mechanism": "cases", **inp, "case_index": i, "case": case_view, "expected": exp}
+            desc_ok = py_desc_ok(run, r)
+            label_ok = exp is None or r["mode"] == exp["mode"]
+            comps_ok = exp is None or r["comps"] == exp["comps"]
+            ok = label_ok and comps_ok
+            chk.feature(f"{mech}:case-label:{'ok' if ok else 'WRONG'}")
+            if r["desc"].startswith("unspecified-method:"):
+                chk.feature(f"{mech}:unspecified-method-case:{'own-method-in-config' if run['method'].lower() in (run['cfg'] or []) else 'other'}")
+            if exp is not None and lean[i] != [label_ok, comps_ok, desc_ok]:
+                raise InfraError(f"Lean case specification and the Python reading disagree on case {i} of {inp}: "
+                                 f"lean={lean[i]} python={[label_ok, comps_ok, desc_ok]} expected={exp} real={case_view}")
+            explained = False
+            if not desc_ok:
+                claim = desc_claim(r)
+                if "unspecified" in claim:
+                    sent = r["method"].lower()
+                    if claim["unspecified"] != sent:
+                        chk.violation(SIG_METHOD_TEXT, f"case '{r['text']}' is sent with {r['method']}", replay_of)
+                    else:
+                        explained = True
+                        chk.violation(SIG_DOCUMENTED, f"case '{r['text']}' (labelled {r['mode']}) uses {r['method']}, which the path "
+                                      f"{run['path']} documents (documented: {sorted(run['documented'])}; paths entry: "
+                                      f"{json.dumps(run['raw']['paths'][run['path']])[:120]})", replay_of)
+                else:
+                    chk.violation(SIG_MISSING_OPTIONAL, f"case '{r['text']}' (labelled {r['mode']}) removes a parameter the operation "
+                                  f"does not require (required: {sorted(k for k, v in run['required'].items() if v)})", replay_of)
             if exp is not None:
                 bad_kinds = [k for k in set(exp["comps"]) | set(r["comps"]) if r["comps"].get(k) != exp["comps"].get(k)]
                 for k in bad_kinds:
@@ -1383,11 +1742,12 @@ def cases_mechanism(chk, drv, ops, vb):
                              and exp["varied_kind"] == k and not exp["varied_negative"])
                     chk.violation(KF_OVERWRITE if hides else "C03:Template:component-label-differs-from-contents",
                                   f"case '{r['text']}': component '{k}' is labelled {r['comps'].get(k)} but what was placed in it "
-                                  f"is {exp['comps'].get(k)} ({exp['why'].get(k)})",
-                                  {"mechanism": "cases", **inp, "case_index": i, "case": case_view, "expected": exp})
-                if r["mode"] != exp["mode"]:
+                                  f"is {exp['comps'].get(k)} ({exp['why'].get(k)})", replay_of)
+                if r["mode"] != exp["mode"] and not explained:
                     if r["mode"] == "negative":
                         sig = "C03:_iter_coverage_cases:negative-case-without-negative-part"
+                    elif exp["undocumented"]:
+                        sig = SIG_UNDOC_POSITIVE
                     elif exp["structural"]:
                         sig = "C03:_iter_coverage_cases:structural-negative-case-labelled-positive"
                     elif exp["varied_negative"]:
@@ -1395,15 +1755,8 @@ def cases_mechanism(chk, drv, ops, vb):
                             "C03:_iter_coverage_cases:case-label-ignores-varied-part"
                     else:
                         sig = KF_TEMPLATE
-                    chk.violation(sig, f"case '{r['text']}' is labelled {r['mode']} but its parts are {exp['comps']} "
-                                  f"({exp['why']}){' and it is structurally negative' if exp['structural'] else ''}",
-                                  {"mechanism": "cases", **inp, "case_index": i, "case": case_view, "expected": exp})
-            if agree and exp is not None:
-                spec = mc[i].get("spec", {})
-                lean_ok = spec.get("label_ok", True) and spec.get("comps_ok", True)
-                if lean_ok != ok:
-                    raise InfraError(f"Lean case specification and the Python reading disagree on case {i} of {inp}: "
-                                     f"lean={spec} python_ok={ok} expected={exp} real={case_view}")
+                    chk.violation(sig, f"case '{r['text']}' (sent with {r['method']}) is labelled {r['mode']} but its parts are {exp['comps']} "
+                                  f"({exp['why']}){' and it is structurally negative' if exp['structural'] else ''}", replay_of)
             # "Incorrect type" for a string-typed parameter of a string-valued location: what is sent is a string
             if r["mode"] == "negative" and r["desc"] == "incorrect-type" and r["parameter_location"] in KIND_OF:
                 decl = next((p for p in ps if p[0] == r["parameter_location"] and p[1] == r["parameter"]), None)
@@ -1412,16 +1765,14 @@ def cases_mechanism(chk, drv, ops, vb):
                         and py_valid(decl[3], sent) is True:
                     chk.violation(KF_COERCE, f"case 'Incorrect type' for {r['parameter_location']} parameter '{r['parameter']}' "
                                   f"(schema {decl[3]}) sends {sent!r}, which the schema accepts",
-                                  {"mechanism": "cases", **inp, "case_index": i, "case": {k: v for k, v in r.items() if k != "values"},
-                                   "sent": sent})
-            # a required parameter that never received a value is silently absent from a positive case
+                                  {"mechanism": "cases", **inp, "case_index": i, "case": case_view, "sent": sent})
+            # a parameter the document requires that never received a value is silently absent from a positive case
             if r["mode"] == "positive":
-                for loc, name, req in run["params"]:
-                    kind = {"query": "query", "path": "path_parameters", "header": "headers", "cookie": "cookies"}[loc]
+                for (name, loc), req in run["required"].items():
+                    kind = KIND_OF[loc]
                     if req and name not in r["containers"].get(kind, []) and not r["desc"].startswith("missing:"):
                         chk.violation(KF_OMITTED, f"positive case '{r['text']}' lacks the required {loc} parameter '{name}'",
-                                      {"mechanism": "cases", **inp, "case_index": i,
-                                       "case": {k: v for k, v in r.items() if k != "values"}})
+                                      {"mechanism": "cases", **inp, "case_index": i, "case": case_view})
 
 
 # ---- run / replay ---------------------------------------------------------------------------------------------------
@@ -1451,13 +1802,31 @@ def run(chk):
         "are requested, all values negative otherwise; the replay checks every real case without that assumption",
         "theorems about validF are for plain JSON Schema (env.oas = none); regex and format semantics are oracles (Python re / "
         "jsonschema FORMAT_CHECKER tables)",
+        "document-level theorems assume WFDoc: the `paths` entry denotes a path item (inline or one resolvable `$ref`), the operation "
+        "under test is one of its operations, no parameter is declared twice at one level; methods are lower-case tokens (the CLI "
+        "lower-cases `unexpected_methods`); a `$ref` next to other fields in a path item and upper-case method keys are outside",
+        "consumer theorems take `has_only_additional_properties_in_non_body_parameters` as an input and the default allowed-status "
+        "sets of negative_data_rejection / positive_data_acceptance; `Conforms` (405 + Allow / client error / 2xx) is the "
+        "reference notion of a server that implements the description",
     ]
     chk.trusted += [
         "lean/SV/Spec/JsonSchema.lean (shared reference semantics; differentially checked against jsonschema on every run)",
         "harness/corr/c03.py: recording of the oracle, description-class table, content oracle of the case mechanism, "
-        "violation classifier (signatures only; never decides whether a label is wrong)",
+        "violation classifier (signatures only; never decides whether a label is wrong); doc_wire/doc_documented/doc_required (the "
+        "raw description read without schemathesis; cross-checked against the Lean `documents`/`requiresParam` on every run)",
     ]
     chk.proved += [
+        "case_labels_doc_repaired: against the API description itself (path item inline or behind `$ref`, any further fields, any "
+        "set of operations, parameters declared at path level / operation level / both, any `unexpected_methods`): every case is "
+        "negative iff it is sent with a method the path does not document or a part is negative/removed/duplicated, component "
+        "labels agree with contents, 'Unspecified HTTP method: M' is sent with M and M is undocumented, 'Missing p at loc' names a "
+        "parameter the operation requires; unspecified_method_is_undocumented / missing_case_names_required_parameter (any variant, "
+        "any value streams); unspecified_method_cases_exact (a method gets a case iff negative mode, in the effective "
+        "configuration, undocumented)",
+        "consumers: coverage_cases_pass_on_conforming_server / consumers_pass_on_conforming_response (negative_data_rejection, "
+        "positive_data_acceptance, unsupported_method never fail on a server that implements the description), "
+        "unsupported_method_fails_unless_405, missing_required_header_repaired / _partial and the kernel-checked counterexample "
+        "FC03a (missing_required_header_full_false_asFound)",
         "case_labels_repaired: repaired _iter_coverage_cases labels every case and every component consistently with its contents "
         "(all operations / mode sets / well-formed value streams); case_labels_asFound_partial (snapshot, away from F8)",
         "cover_numeric_labels: end-to-end label soundness of cover_schema_iter on EVERY plain integer/number schema, satisfiable or "
@@ -1479,6 +1848,9 @@ def run(chk):
         "(`not`, combinators) can still reject a boundary value (positive_number_full_false_repaired; on the real code: F9b)",
     ]
     chk.sampled_only += [
+        "create_test -> add_coverage (what is attached as explicit examples) is compared with _iter_coverage_cases on a slice of the "
+        "document family, not modelled; Swagger 2.0 operations, Open API 3.1, security-scheme parameters, examples taken from "
+        "responses / media-type `examples`, external `$ref`s: not generated",
         "schemas with fractional numeric keywords, pattern+length combinations (update_quantifier), allOf with several members, "
         "patternProperties: outside the model, replayed only",
         "what the oracle (hypothesis-jsonschema / Hypothesis) returns: recorded, its contract is checked per call, not proved",
@@ -1518,6 +1890,22 @@ def run(chk):
     ops += [("cases:random", *GEN.random_operation(rng), rng.choice(["P", "N", "PN", "PN"])) for _ in range(chk.budget(120, 2000))]
     cases_mechanism(chk, drv, ops, vb)
     tm.lap("cases")
+    # the operation inside its document: path item inline / behind a reference, further fields in it, parameters declared at
+    # the path level / the operation level / both, the operation's own method anywhere in the documented set, configured
+    # `unexpected_methods`; negative mode in two runs out of three (the method block exists only there)
+    doc_grid = GEN.doc_context_grid(chk.thorough)
+    dops = [("cases:document", ps, body, ms, ("N", "PN", "P")[i % 3] if not chk.thorough or i % 2 else "PN", ctx)
+            for i, (ps, body, ms, ctx) in enumerate(doc_grid)]
+    for _ in range(chk.budget(150, 1500)):
+        ps, body, ms = GEN.random_operation(rng)
+        ms, ctx = GEN.random_doc_context(rng, ps, ms)
+        dops.append(("cases:document-random", ps, body, ms, rng.choice(["N", "PN", "PN", "P"]), ctx))
+    vh = detect_consumer_variant(chk)
+    cases_mechanism(chk, drv, dops, vb, vh)
+    chk.notes.append(f"cases:document walks {len(doc_grid)} points of the document-context grid (a diagonal through the product of "
+                     f"{len(GEN.DOC_PARAM_SETS)} parameter sets x level patterns x {len(GEN.DOC_METHOD_SETS)} method sets x own method x "
+                     f"{len(GEN.DOC_CFGS)} configurations x 3 layouts)")
+    tm.lap("cases:document")
     chk.exhaustive = False
 
 
@@ -1530,7 +1918,7 @@ def replay(chk, data):
         print("mechanism:", r["correspondence"])
         print("recorded model:", json.dumps(r.get("model"), default=str)[:1500])
         print("recorded impl :", json.dumps(r.get("impl"), default=str)[:1500])
-        r = {**r["input"], "mechanism": "cases" if "params" in r["input"] else "cover"}
+        r = {**r["input"], "mechanism": "cases" if "params" in r["input"] else "consumers" if "op" in r["input"] else "cover"}
     mech = r.get("mechanism")
     if mech == "positive_number":
         s = r["schema"]
@@ -1560,12 +1948,39 @@ def replay(chk, data):
             for o, ok in zip(out, valid):
                 good = exempt(o["desc"]) or (ok if o["mode"] == "positive" else not ok)
                 print(f"  {'ok   ' if good else 'WRONG'} {o['mode']:8} {o['value']!r}  '{o['text']}'  valid={ok}")
+    elif mech == "consumers":
+        o = r["op"]
+        run = run_cases([tuple(p) for p in o["params"]], [tuple(b) for b in o["body"]] if o.get("body") else None,
+                        o["methods"], o["modes"], o.get("ctx"))
+        print("document:", json.dumps(run["raw"]))
+        i = r["case_index"]
+        if i >= len(run["cases"]):
+            print(f"the operation now has {len(run['cases'])} cases; recorded case index {i}")
+            return 0
+        c = run["cases"][i]
+        print(f"case {i}: {c['method']} {c['mode']} '{c['text']}' {c['parameter']}@{c['parameter_location']} containers={c['containers']}")
+        fails, oa = call_consumers(run["objs"][i], r["status"], r["allow"], r["mrh_allowed"])
+        print(f"response: status {r['status']}{' + Allow' if r['allow'] else ''}; missing_required_header allowed statuses {r['mrh_allowed']}")
+        print("impl now (True = the check fails):", dict(zip(CONSUMERS, fails)), " only-additional-properties:", oa)
+        vh = detect_consumer_variant(chk)
+        exp = content_oracle(run)[i]
+        if exp is not None:
+            from schemathesis.specs.openapi.utils import expand_status_codes
+            m = drv.one("consumers", {"vh": vh, "opMethod": run["method"].lower(), "items": [
+                {"case": real_case_wire(c, exp["comps"]), "status": r["status"], "allow": r["allow"], "reqMethod": c["method"].upper(),
+                 "onlyAdditional": oa, "allowed": sorted(expand_status_codes(r["mrh_allowed"]))}]})
+            print(f"model ({vh}):", dict(zip(CONSUMERS, m[0])))
+            print("what the case deserves:", exp["mode"], exp["comps"], exp["why"])
     elif mech == "cases":
         ps = [tuple(p) for p in r["params"]]
         body = [tuple(b) for b in r["body"]] if r.get("body") else None
-        run = run_cases(ps, body, r["methods"], r["modes"])
+        run = run_cases(ps, body, r["methods"], r["modes"], r.get("ctx"))
         vb = detect_body_variant(chk)
-        print("operation:", json.dumps({"params": r["params"], "body": r.get("body"), "methods": r["methods"], "modes": r["modes"]}))
+        print("operation:", json.dumps({"params": r["params"], "body": r.get("body"), "methods": r["methods"], "modes": r["modes"],
+                                        "ctx": r.get("ctx")}))
+        print("document:", json.dumps(run["raw"]))
+        print("documented methods (read off the document):", sorted(run["documented"]), " unexpected_methods:", run["cfg"],
+              " required parameters:", sorted(k for k, v in run["required"].items() if v))
         if run["err"] is not None:
             print("impl now raised:", repr(run["err"]))
         m = drv.one(*cases_request(run, r["modes"], vb))
@@ -1573,9 +1988,11 @@ def replay(chk, data):
         for i, c in enumerate(run["cases"]):
             mm = mc[i] if i < len(mc) else None
             flag = "" if py_case_label_ok(c) else "  <-- label"
-            print(f"  impl  {i}: {c['mode'][:3]} {c['comps']} '{c['text']}' {c['parameter']}@{c['parameter_location']}{flag}")
+            if not py_desc_ok(run, c):
+                flag += "  <-- the description is false for this document"
+            print(f"  impl  {i}: {c['method']} {c['mode'][:3]} {c['comps']} '{c['text']}' {c['parameter']}@{c['parameter_location']}{flag}")
             if mm is not None:
-                print(f"  model {i}: {mm['mode'][:3]} {mm['comps']} {mm['desc']} contents={mm['contents']} spec={mm['spec']}")
+                print(f"  model {i}: {mm['mode'][:3]} {mm['comps']} {mm['desc']} contents={mm['contents']} spec={mm['spec']} {mm.get('spec_doc')}")
         if "error" in m:
             print("model:", m)
     else:
